@@ -267,6 +267,14 @@ theorem scan_gap {g : List Rune} (hg : Gap g) :
 
 
 
+/-- `Scan` at a comment that ends in a newline: scanning continues behind the newline -/
+theorem scan_comment_line (f : Nat) (semi nl : Rune) (body tail : List Rune) (ch : Int)
+    (p : PState) (hch : isWhite ch = true) (hs : semi.ch = 59) (hb : ∀ r ∈ body, NoNl r) (hnl : nl.ch = 10) :
+    scan (f + 2) (semi :: (body ++ nl :: tail)) ch p =
+      scan (f + 1) tail 10 (feed (semi :: (body ++ [nl])) p) := by
+  rw [scan_white_semi _ _ _ _ _ hch hs, scan_semi, commentLoop_to_newline _ _ _ _ _ (by decide) (by decide) hb hnl]
+  rfl
+
 theorem scan_eof (f : Nat) (p : PState) : (scan f [] EOF p).1 = none := by
   cases f with
   | zero => rfl
